@@ -174,6 +174,16 @@ func c15Run(v *V, scen int, keys []string, vals []string) string {
 		p.AddGroup("Application Options", "", d)
 		_, err := p.ParseArgs(nil)
 		return vErrString(err)
+	case 12: // an INI text in which one or two of several options have bad values: what is applied before the error
+		d := &c15Env{}
+		p := NewNamedParser("prog", None)
+		p.AddGroup("Application Options", "", d)
+		text := "ea = 1\neb = x" + keys[0] + "\nec = 3\n"
+		if len(keys) > 2 {
+			text = "ea = 1\neb = x" + keys[0] + "\nec = y" + keys[1] + "\n"
+		}
+		err := NewIniParser(p).Parse(strings.NewReader(text))
+		return refItoa(d.A) + "," + refItoa(d.B) + "," + refItoa(d.C) + " err=" + vErrString(err)
 	case 8: // an INI text with several unknown sections: which one the error names
 		d := &c15Sec{}
 		p := NewNamedParser("prog", None)
